@@ -11,7 +11,6 @@ use super::{
 };
 use alloc::vec::Vec;
 use serde::Deserialize;
-use serde_json::Deserializer;
 
 /// A connection that can only be used for reading.
 ///
@@ -121,10 +120,14 @@ impl<Read: ReadHalf> ReadConnection<Read> {
     {
         self.read_from_socket().await?;
 
-        let mut stream = Deserializer::from_slice(&self.buffer[self.msg_pos..]).into_iter::<M>();
-        let msg = stream.next();
-        let null_index = self.msg_pos + stream.byte_offset();
-        let buffer = &self.buffer[self.msg_pos..null_index];
+        // The message ends at its null terminator, regardless of whether it can be deserialized.
+        // `read_from_socket` guarantees that there is one at or after `msg_pos`.
+        let msg_pos = self.msg_pos;
+        let null_index = msg_pos
+            + self.buffer[msg_pos..]
+                .iter()
+                .position(|&b| b == b'\0')
+                .ok_or(crate::Error::UnexpectedEof)?;
         if self.buffer[null_index + 1] == b'\0' {
             // This means we're reading the last message and can now reset the indices.
             self.read_pos = 0;
@@ -132,19 +135,15 @@ impl<Read: ReadHalf> ReadConnection<Read> {
         } else {
             self.msg_pos = null_index + 1;
         }
+        let buffer = &self.buffer[msg_pos..null_index];
 
-        match msg {
-            Some(Ok(msg)) => {
-                // SAFETY: Since the parsing from JSON already succeeded, we can be sure that the
-                // buffer contains a valid UTF-8 string.
-                trace!("connection {}: received a message: {}", self.id, unsafe {
-                    from_utf8_unchecked(buffer)
-                });
-                Ok(msg)
-            }
-            Some(Err(e)) => Err(e.into()),
-            None => Err(crate::Error::UnexpectedEof),
-        }
+        let msg = serde_json::from_slice::<M>(buffer)?;
+        // SAFETY: Since the parsing from JSON already succeeded, we can be sure that the
+        // buffer contains a valid UTF-8 string.
+        trace!("connection {}: received a message: {}", self.id, unsafe {
+            from_utf8_unchecked(buffer)
+        });
+        Ok(msg)
     }
 
     // Reads at least one full message from the socket.
